@@ -580,10 +580,16 @@ func (p *TextLayoutPango) setText(text string, justify bool) {
 	}
 }
 
+// maximum number of space characters measured for a tabulation
+const maxTabSize = 1000
+
 func (p *TextLayoutPango) setTabs() {
 	tabSize := p.Style.TabSize
 	width := tabSize.Width
 	if tabSize.IsMultiple { // no unit, means a multiple of the advance width of the space character
+		if width > maxTabSize {
+			width = maxTabSize
+		}
 		layout := newTextLayout(p.fonts, p.Style, nil)
 		layout.SetText(strings.Repeat(" ", width))
 		line, _ := layout.GetFirstLine()
